@@ -101,6 +101,10 @@ Record xfer := mkX { x_type : Z; x_ids : list Z; x_targets : list Z; x_next : Z;
    the announced last index completes the image, which is then shown on every target.
    A chunk for another target or format does not disturb a running transfer; a chunk of the
    running transfer that is not the next one kills it. *)
+Definition image_is_empty (i : image) : bool :=
+  (i_type i =? 0) && (i_w i =? 0) && (i_h i =? 0) && match i_off i with None => true | Some _ => false end
+  && match i_data i with [] => true | _ => false end.
+
 Definition step_chunk (p : panel) (x : option xfer) (c : chunk) : panel * option xfer :=
   let start :=
     if ck_index c =? 0 then
@@ -117,7 +121,9 @@ Definition step_chunk (p : panel) (x : option xfer) (c : chunk) : panel * option
       if ck_index c =? x_next t then
         let img := mkImg (i_type (x_img t)) (i_w (x_img t)) (i_h (x_img t)) (i_off (x_img t))
                          (i_data (x_img t) ++ ck_data c) in
-        if ck_index c =? x_last t then (apply_eff p (EState (x_targets t) (UGfx img)), None)
+        if ck_index c =? x_last t then
+          (* an image without any content (mono, 0x0, no offset, no data) shows nothing *)
+          ((if image_is_empty img then p else apply_eff p (EState (x_targets t) (UGfx img))), None)
         else (p, Some (mkX (x_type t) (x_ids t) (x_targets t) (x_next t + 1) (x_last t) img))
       else (p, None)
     else (p, start)
